@@ -122,6 +122,14 @@ Theorem C03_chunk_burst32_msb_first_refuted :
 Proof. exact chunk_burst32_msb_refuted_lemma. Qed.
 Print Assumptions C03_chunk_burst32_msb_first_refuted.
 
+(* ... and these are the only ones: a non-empty error pattern E (bytes xor-ed onto one CRC codeword) inside 32
+   contiguous MSB-first bits has zero syndrome exactly when it is 62 95 e3 fd 80 or 01 03 83 6b f2 at some byte
+   offset and zero elsewhere *)
+Theorem C03_msb32_undetected_exactly_two : forall E p, bytes E -> in_window_msb E p 32 ->
+  (1 <= weight (bits_of_bytes E))%nat -> (crc_bits 0 (bits_of_bytes E) = 0 <-> is_gen_multiple E).
+Proof. exact msb32_exactly_two. Qed.
+Print Assumptions C03_msb32_undetected_exactly_two.
+
 (* ---------- non-vacuity ---------- *)
 (* the check value of the CRC-32C catalogue entry pins polynomial, reflection and inversion *)
 Example C03_crc_check_value : crc32c [49;50;51;52;53;54;55;56;57] = 0xE3069283.
